@@ -636,3 +636,4 @@ LEVEL_NOTE = ("relation_exact is stated for plain edge lists, relation_exact_roo
               "in a default-dtype pandas 3 frame is refused by the pinned code (environment incompatibility, excluded)")
 TECHNIQUE = ("machine-checked proof (Lean 4) on an executable model + differential correspondence check against the real "
              "constructors, model-free oracle on every case")
+RULE = RULE + ' Fourth session: non-default unique pandas indices, DataFrame.attrs in the input-unmodified comparison, an opaque float column g (incl. +-inf), 1054 relation rows per library, a heap list of 1100 elements.'
